@@ -98,6 +98,11 @@ pub fn corpus() -> Vec<Input> {
     //    parameter list from the call sites it sees)
     add("ecl07-conflicting-call-signatures", "truecl", "th07", vec![], "void callee(int a) { $REG[10000] = a; }\nvoid c1() { $REG[10037] = 3; ins_41(callee); }\nvoid c2() { %REG[10041] = 2.5; ins_41(callee); }\nvoid c3() { $REG[10037] = 1; $REG[10038] = 2; ins_41(callee); }\nvoid c4() { $REG[10037] = 1; %REG[10041] = 2.0; %REG[10042] = 3.0; ins_41(callee); }\nvoid c5() { callee2(1, 2.0); callee(7); }\nvoid callee2(int a, float x) { $REG[10000] = a; }\nvoid c6() { %REG[10041] = 1.0; ins_41(callee2); }\nscript timeline0 {}\n".into(), None, true);
     add("ecl08-conflicting-call-signatures", "truecl", "th08", vec![], "void callee(int a) { $REG[10000] = a; }\nvoid c1() { $REG[10061] = 3; ins_52(callee); }\nvoid c2() { %REG[10065] = 2.5; ins_52(callee); }\nvoid c3() { $REG[10061] = 1; $REG[10062] = 2; ins_52(callee); }\nvoid c4() { $REG[10061] = 1; %REG[10065] = 2.0; %REG[10066] = 3.0; ins_52(callee); }\nvoid c5() { callee2(1, 2.0); callee(7); }\nvoid callee2(int a, float x) { $REG[10000] = a; }\nvoid c6() { %REG[10065] = 1.0; ins_52(callee2); }\nscript timeline0 {}\n".into(), None, true);
+    // -- several attributes that a parameter's format does not consume (one warning each, from one attribute table)
+    add("msg06-unconsumed-attributes", "trumsg", "th06", vec![], format!("{MSG06_HEAD}script script0 {{ ins_100(1); ins_101(1.5); ins_0(); }}\nscript script1 {{ ins_0(); }}\n"),
+        Some("!msgmap\n!ins_signatures\n100 S(hex;bs=4;len=8;mask=1,2,3;furibug;nulless)\n101 f(imm;bs=4;len=8;hex;arg0;nulless)\n102 z(bs=4;hex;imm;arg0;enum=\"bool\")\n"), true);
+    add("anm12-unconsumed-attributes", "truanm", "th12", vec![], format!("{ANM_HEAD}script s0 {{ ins_9001(1); I0 = I1 + I2; }}\n"),
+        Some("!anmmap\n!ins_signatures\n9001 S(hex;bs=4;len=8;mask=1,2,3;furibug;nulless)\n9002 SSS\n!ins_intrinsics\n9002 BinOp(op=\"+\"; type=\"int\"; zeta=\"1\"; alpha=\"2\"; mid=\"3\"; beta=\"4\")\n"), true);
     v
 }
 
